@@ -82,6 +82,16 @@ theorem C17_tree_edges (root : Node) (es : List Edge) (h : TreeGrowth root es) :
     TreePath root (treeEdges root es) :=
   Proofs.Walk.treePath_of_growth root es h
 
+/-- **… and the model's search tree is one, for every residue graph** (connected or not, any adjacency
+order, any root, BFS or DFS): `bfsEdges`/`dfsEdges` yield a growth sequence, so
+`searchPath = list(search_tree.edges)` satisfies the tree hypothesis of `Mol.WF` unconditionally. -/
+theorem C17_search_tree (adj : List (Node × List Node)) (root : Node) (dfs : Bool) :
+    TreePath root (searchPath adj root dfs) :=
+  Proofs.Walk.searchPath_treePath adj root dfs
+
+example : searchPath [(1, [2]), (2, [1, 3]), (3, [2, 4]), (4, [3, 5]), (5, [4])] 3 true =
+    [(3, 2), (3, 4), (2, 1), (4, 5)] := by decide
+
 /-- the executable well-formedness test used by the driver is sound -/
 theorem C17_wf_check (m : Mol) (h : m.wfCheck = true) : m.WF := Proofs.Walk.wfCheck_sound m h
 
